@@ -155,8 +155,11 @@ Clause(i, cl, nn, old, new, seen) ==
             LET x == Moment(cl.pa, new[cl.a])
                 y == Moment(cl.pb, new[cl.b])
             IN  IF x = y THEN OK ELSE Bad(i, cl, nn, <<x, y>>)
-      [] cl.t = "cdraw" ->        \* E[m * z^k] for a final, moment-only draw z = fam(params(store))
-            LET x == DrawMoment(cl.fam, cl.params, cl.k, cl.poly, new[cl.pi]).a
+      [] cl.t = "cdraw" ->        \* E[m * z^k] for a final, moment-only draw z = fam(params(store)); with field ep the
+                                  \* draw is guarded: m carries the indicator of the guard, ep is what E[. z^k] is otherwise
+            LET x == IF "ep" \in DOMAIN cl
+                     THEN RAdd(DrawMoment(cl.fam, cl.params, cl.k, cl.poly, new[cl.pi]).a, Moment(cl.ep, new[cl.pi]).a)
+                     ELSE DrawMoment(cl.fam, cl.params, cl.k, cl.poly, new[cl.pi]).a
             IN  IF REqFrac(x, cl.p, cl.q) THEN OK ELSE Bad(i, cl, nn, x)
       [] cl.t = "inv" ->          \* a polynomial (integer coefficients) in the goal quantities vanishes
             LET gv == [j \in 1..Len(cl.goals) |-> GoalVal(cl.goals[j], new[cl.pi])]
